@@ -38,6 +38,13 @@ type Cfg struct {
 	NoProgCall bool   `json:"no_progcall"` // router does NOT announce progressive_call_invocations
 	CancelMode string `json:"cancel_mode"` // "", kill, killnowait, skip
 	Debug      bool   `json:"debug"`
+	// Join: what the router answers to HELLO (default: WELCOME with roles)
+	Join *Join `json:"join,omitempty"`
+}
+
+type Join struct {
+	Reply   string         `json:"reply"` // welcome abort goodbye challenge result close none nil_details
+	Details map[string]Val `json:"details,omitempty"`
 }
 
 type Burst struct {
@@ -976,13 +983,49 @@ func runSchedule(t *testing.T, s *Sched, idx int) *Result {
 	go d.drain(first)
 	go func() {
 		<-first // HELLO
-		rp.Send() <- d.welcome()
+		j := s.Cfg.Join
+		if j == nil {
+			rp.Send() <- d.welcome()
+			return
+		}
+		switch j.Reply {
+		case "welcome":
+			rp.Send() <- &wamp.Welcome{ID: 4242, Details: dictOf(j.Details)}
+		case "nil_details":
+			rp.Send() <- &wamp.Welcome{ID: 4242}
+		case "abort":
+			rp.Send() <- &wamp.Abort{Reason: "wamp.error.no_such_realm", Details: dictOf(j.Details)}
+		case "goodbye":
+			rp.Send() <- &wamp.Goodbye{Reason: "wamp.close.system_shutdown", Details: dictOf(j.Details)}
+		case "challenge":
+			rp.Send() <- &wamp.Challenge{AuthMethod: "ticket", Extra: dictOf(j.Details)}
+		case "result":
+			rp.Send() <- &wamp.Result{Request: 1, Details: dictOf(j.Details)}
+		case "close":
+			d.end()
+		case "none":
+		}
 	}()
 	rt := time.Duration(s.Cfg.RTms) * time.Millisecond
 	c, err := client.NewClient(cp, client.Config{Realm: "verif.realm", ResponseTimeout: rt, Logger: capLog{d}, Debug: s.Cfg.Debug})
 	if err != nil {
-		res.Status, res.Why = "harness_error", "NewClient: "+err.Error()
+		if s.Cfg.Join == nil {
+			res.Status, res.Why = "harness_error", "NewClient: "+err.Error()
+			return res
+		}
+		// a refused join: NewClient has closed its peer; nothing may be left behind
+		d.log(Obs{E: "join", R: "error", Txt: err.Error()})
+		d.end()
+		time.Sleep(time.Hour)
+		synctest.Wait()
+		if left := clientGoroutines(); len(left) > 0 {
+			res.Status, res.Why, res.Stacks = "leak", topFrames(left), strings.Join(left, "\n\n")
+		}
+		res.Obs = append([]Obs(nil), d.obs...)
 		return res
+	}
+	if s.Cfg.Join != nil {
+		d.log(Obs{E: "join", R: "ok"})
 	}
 	d.c = c
 	if s.Cfg.CancelMode != "" {
